@@ -2115,6 +2115,11 @@ func newMedActionFromApiStruct(a *api.MedAction) (*table.MedAction, error) {
 	if a == nil {
 		return nil, nil
 	}
+	// A replace sets the (unsigned, 32-bit) MED itself. "set-med -1" is how the configuration spells
+	// "subtract 1", so a negative replace value would be stored, applied and listed as a modification.
+	if a.Type == api.MedAction_TYPE_REPLACE && (a.Value < 0 || a.Value > math.MaxUint32) {
+		return nil, fmt.Errorf("invalid med value to replace with: %d", a.Value)
+	}
 	return table.NewMedActionFromApiStruct(table.MedActionType(a.Type), a.Value), nil
 }
 
